@@ -1607,11 +1607,13 @@ class BitMaskedArrayType(ContentType):
         content = self.contenttype.tolayout(
             lookup, lookup.positions[pos + self.CONTENT], fields
         )
+        # the view that asks for this layout slices it to its own start:stop;
+        # the content may be longer than the mask has bits for
         return ak.layout.BitMaskedArray(
             mask,
             content,
             self.valid_when,
-            len(content),
+            min(len(content), len(mask) * 8),
             self.lsb_order,
             parameters=self.parameters,
         )
